@@ -93,4 +93,11 @@ PROPS = {
         cfgs_quick=["std-debug", "std-release", "nounroll-release"],
         cfgs_thorough=["std-debug", "std-release", "nounroll-release", "nounroll-debug"],
     ),
+    "C04": dict(
+        theorems=["put_block_eq_compress32", "put_block_eq_compress64", "finalize_conforms",
+                  "blake_conforms", "counter_exact", "streaming_conforms", "increase_count_exact"],
+        gen=g("C04"),
+        cfgs_quick=["std-debug", "std-release", "nosimd-debug"],
+        cfgs_thorough=ALL4,
+    ),
 }
